@@ -33,21 +33,26 @@ def eps_class(fit, phi, npts, loc=1.0):
     return 2e-2
 
 
-def internal_keys(at):
+def internal_keys(at, ks=None):
+    """the property's predicate: every vertex of the interface in >= 2 cells and one end in >= 3.  Interior points belong to
+    the cells the interface bounds, so an interface with interior points needs two cells; a TWO-POINT interface (ks[k] == 0)
+    only has its two ends, which can both lie in >= 2 cells although one side is the outside (outline segment at a
+    four-fold junction) - by the literal predicate it is internal."""
     jc = at.jcells()
     out = []
     for k in sorted(at.E, key=sorted):
-        if len(at.E[k]) == 2:
-            a, b = at.ends(k)
+        a, b = at.ends(k)
+        two_point = ks is not None and ks.get(k, 1) == 0
+        if len(at.E[k]) == 2 or (two_point and len(jc[a]) >= 2 and len(jc[b]) >= 2):
             if len(jc[a]) >= 3 or len(jc[b]) >= 3:
                 out.append(k)
     return out
 
 
-def used_junctions(at, ignore_four=False):
+def used_junctions(at, ignore_four=False, ks=None, keys=None):
     """junctions shared by >=3 cells and >=3 internal interfaces (>=4 left out with ignore_four)"""
     jc = at.jcells()
-    ik = set(internal_keys(at))
+    ik = set(keys) if keys is not None else set(internal_keys(at, ks))
     ji = at.jifaces()
     out = []
     for j in sorted(at.J):
@@ -61,7 +66,7 @@ def used_junctions(at, ignore_four=False):
 
 def matrix(at, junctions=None, keys=None, tangent=None):
     keys = keys if keys is not None else internal_keys(at)
-    junctions = junctions if junctions is not None else used_junctions(at)
+    junctions = junctions if junctions is not None else used_junctions(at, keys=keys)
     col = {k: i for i, k in enumerate(keys)}
     A = np.zeros((2 * len(junctions), len(keys)))
     ji = at.jifaces()
